@@ -37,7 +37,8 @@ def render(us, style, rng, record=None):
     """style: 'line' (one token per line), 'single' (one line, pragmas excepted), 'tight' (no blank
     wherever two tokens may be adjacent), 'indent' (random
     blanks/tabs/newlines), 'markers' (linemarkers between arbitrary tokens), 'samemarker' (the *same*
-    linemarker before every token: all tokens get one and the same file:line:column).
+    linemarker before every token: all tokens get one and the same file:line:column).  In the random
+    styles a #pragma line gets random blanks before '#', after it, before its text and at its end.
     record: optional list receiving (spelling, line, col, file) per token as laid out."""
     parts = []
     line, col, file = 1, 1, None
@@ -56,11 +57,20 @@ def render(us, style, rng, record=None):
         if kind == "pragma":
             if state["col"] != 1:
                 put("\n")
+            # blanks before '#', between '#' and 'pragma', before the text and at the end of the line are layout
+            if style in ("line", "single", "tight", "samemarker"):
+                lead, gap1, gap2, trail = "", "", " ", ""
+            else:
+                lead = rng.choice(["", "", " ", "\t", "  "])
+                gap1 = rng.choice(["", "", " ", "\t"])
+                gap2 = rng.choice([" ", " ", "\t", "  "])
+                trail = rng.choice(["", "", " ", "\t", " \t "])
+            c0 = state["col"] + len(lead) + 1 + len(gap1)
             if record is not None:
-                record.append(("pragma", state["line"], state["col"] + 1, state["file"]))
+                record.append(("pragma", state["line"], c0, state["file"]))
                 if val:
-                    record.append((val, state["line"], state["col"] + 8, state["file"]))
-            put("#pragma" + (" " + val if val else "") + "\n")
+                    record.append((val, state["line"], c0 + 6 + len(gap2), state["file"]))
+            put(lead + "#" + gap1 + "pragma" + (gap2 + val if val else "") + trail + "\n")
             continue
         if style == "samemarker":
             if state["col"] != 1:
